@@ -1571,6 +1571,8 @@ def mini_call(func, args: Dict[str, object], budget: int = 2000, builtins: Optio
                 return fn(*a, **kw)
             except StopIteration:
                 raise _MiniRaise("StopIteration")
+            except OSError:
+                raise _MiniRaise("OSError")
             except (IndexError, KeyError, ValueError, TypeError) as ex:
                 raise _MiniRaise(type(ex).__name__)
         if isinstance(e, (ast.Tuple, ast.List)):
@@ -1598,14 +1600,30 @@ def mini_call(func, args: Dict[str, object], budget: int = 2000, builtins: Optio
             if isinstance(e.slice, ast.Slice):
                 lo = ev(e.slice.lower) if e.slice.lower else None
                 hi = ev(e.slice.upper) if e.slice.upper else None
-                return v[lo:hi]
+                stp = ev(e.slice.step) if e.slice.step else None
+                return v[lo:hi:stp]
             try:
                 return v[ev(e.slice)]
             except (IndexError, KeyError) as ex:
                 raise _MiniRaise(type(ex).__name__)
-        if isinstance(e, ast.BinOp) and isinstance(e.op, (ast.Add, ast.Sub)):
+        if isinstance(e, ast.BinOp) and isinstance(e.op, (ast.Add, ast.Sub, ast.Mod, ast.Mult, ast.FloorDiv)):
             a, b = ev(e.left), ev(e.right)
-            return a + b if isinstance(e.op, ast.Add) else a - b
+            try:
+                return {ast.Add: lambda: a + b, ast.Sub: lambda: a - b, ast.Mod: lambda: a % b, ast.Mult: lambda: a * b, ast.FloorDiv: lambda: a // b}[type(e.op)]()
+            except (TypeError, ValueError, ZeroDivisionError) as ex:
+                raise _MiniRaise(type(ex).__name__)
+        if isinstance(e, ast.UnaryOp) and isinstance(e.op, ast.USub):
+            return -ev(e.operand)
+        if isinstance(e, ast.JoinedStr):
+            out_ = ""
+            for v_ in e.values:
+                if isinstance(v_, ast.Constant):
+                    out_ += str(v_.value)
+                elif isinstance(v_, ast.FormattedValue) and v_.format_spec is None and v_.conversion == -1:
+                    out_ += format(ev(v_.value))
+                else:
+                    raise MiniStop("f-string with conversion / format spec")
+            return out_
         if isinstance(e, ast.IfExp):
             return ev(e.body) if ev(e.test) else ev(e.orelse)
         if isinstance(e, ast.Yield):
@@ -1672,6 +1690,8 @@ def mini_call(func, args: Dict[str, object], budget: int = 2000, builtins: Optio
                     raise MiniStop("nested function with decorators / defaults")
                 gen = any(isinstance(x, (ast.Yield, ast.YieldFrom)) for x in walk_local(st) if x is not st)
                 env[st.name] = closure(st, [a.arg for a in st.args.args], st.body, gen)
+            elif isinstance(st, ast.Assert):
+                pass
             elif isinstance(st, ast.AugAssign) and isinstance(st.target, ast.Name) and isinstance(st.op, (ast.Add, ast.Sub)):
                 cur = ev(ast.Name(id=st.target.id, ctx=ast.Load()))
                 v = ev(st.value)
